@@ -186,3 +186,49 @@ def r_C29e(root):
         if bad: out.append(Finding("C29", "C29.e", E, "dot_repr", " ".join(ast.unparse(r).split())[:90], "the string branch of dot_repr puts %s into its result, which is not the output of dot_escape: quotes, braces and bars of attribute values reach the DOT label unescaped" % ast.unparse(bad[1])[:50], witness="a STRING attribute longer than 20 characters with a double quote among the first 20"))
     if inst < 1: raise AnalysisError("dot_repr: string branch not found")
     return inst, out
+
+def r_C31d_C29f(root):
+    """C31.d  the built-in generators write their output only under gen_file's protection and only to the file gen_file
+              guards: in generators.py an exporter (a function imported from textx.export) is used only as the callback
+              handed to gen_file — partial(exporter, ..., <file>) or a call inside a local function that is gen_file's
+              callback — and the file it writes is the very expression passed to gen_file as output file.
+       C29.f  html_escape, which the taint rule treats as a sanitiser, evaluated (sa/pyeval.py) on sample texts, equals the
+              standard library's html.escape (every '<', '>', '&' and quote is escaped whatever else the text contains)."""
+    import html as _html
+    from sa import pyeval
+    G = "textx/generators.py"; out = []; inst = 0
+    t = load(root, G)
+    exporters = {a.asname or a.name for n in t.body if isinstance(n, ast.ImportFrom) and (n.module or "").endswith("export") for a in n.names if "export" in a.name}
+    if not exporters: raise AnalysisError("generators.py: no exporter imported from textx.export")
+    for fn in [f for f in t.body if isinstance(f, ast.FunctionDef)]:
+        refs = [n for n in ast.walk(fn) if isinstance(n, ast.Name) and n.id in exporters and isinstance(n.ctx, ast.Load)]
+        if not refs: continue
+        gfs = [c for c in calls(fn, own=True) if callee_name(c) == "gen_file"]
+        for r in refs:
+            inst += 1; why = None
+            par = getattr(r, "_parent", None)
+            call = par if isinstance(par, ast.Call) and (par.func is r or (callee_name(par) == "partial" and par.args and par.args[0] is r)) else None
+            if call is None: why = "the exporter is used outside a call"
+            else:
+                args = call.args[1:] if callee_name(call) == "partial" else call.args
+                gf = None
+                if callee_name(call) == "partial": gf = next((g for g in gfs if any(a is call for a in g.args) or any(k.value is call for k in g.keywords)), None)
+                else:
+                    inner = enclosing_func(call)
+                    if inner is not fn and inner is not None: gf = next((g for g in gfs if any(isinstance(a, ast.Name) and a.id == inner.name for a in g.args) or any(isinstance(k.value, ast.Name) and k.value.id == inner.name for k in g.keywords)), None)
+                if gf is None: why = "the exporter runs outside gen_file (no removal of a partial file on failure, no skip/overwrite decision)"
+                elif len(gf.args) < 2 or not any(ast.unparse(a) == ast.unparse(gf.args[1]) for a in args): why = "the exporter writes %s, gen_file guards %s" % ([ast.unparse(a) for a in args][-1:] , ast.unparse(gf.args[1]) if len(gf.args) > 1 else "?")
+            ob("C31", "C31.d", G, fn.name, "exporter %s used as gen_file's callback on gen_file's output file" % r.id, why is None)
+            if why: out.append(Finding("C31", "C31.d", G, fn.name, " ".join(ast.unparse(stmt_of(r)).split())[:100], why + ": a failure in the middle of the export leaves a partial file that the next run skips as already generated (or that nobody removes)", witness="an output folder that does not exist yet / a write failure in the middle of the export"))
+    if inst < 3: raise AnalysisError("generators.py: only %d exporter uses found" % inst)
+    # ---- C29.f
+    he = find(load(root, E), "html_escape"); p0 = he.args.args[0].arg
+    for sample in ("a", "a<b", "a>b", "x & y", 'say "hi"', "->", "=>", "a<b>c&d"):
+        inst += 1
+        try: got = pyeval.run_block(he.body, {p0: sample, "escape": pyeval.PyFn(_html.escape), "html.escape": pyeval.PyFn(_html.escape), "html": {".escape": pyeval.PyFn(_html.escape)}})
+        except pyeval.Unsupported as e: raise AnalysisError("html_escape: outside the evaluated subset: %s" % e)
+        except pyeval.Raised as e: got = "raise " + e.cls
+        ok = got == _html.escape(sample)
+        ob("C29", "C29.f", E, "html_escape", "%r -> %r" % (sample, got), ok)
+        if not ok: out.append(Finding("C29", "C29.f", E, "html_escape", "html_escape(%r)" % sample, "yields %r, html.escape gives %r: markup characters of match-rule texts reach the HTML-like label unescaped" % (got, _html.escape(sample)), witness="Arrow: '->' | '=>';"))
+    return inst, out
